@@ -284,6 +284,133 @@ def _inline_async(c, c_mir, h, cb, upmap):
     return done
 
 
+def _undo_renames(crate, known, new, log):
+    """A private function that is new while exactly one known private function of the same module (impl ordinals aside) has
+    disappeared is that function under a new name: it is not a helper to inline.  The rules find their anchors by item name,
+    so the body and the calls to it get the old name back (`renamed` records the mapping for the evidence)."""
+    if not crate.bodies:
+        return
+    prefix = crate.bodies[0]["id"].split("::")[0] + "::"
+    present = set(_stable(b["id"]) for b in crate.bodies if b.get("kind") == "fn")
+    missing = [k for k in known if k.startswith(prefix) and k not in present and "::tests" not in k and "::test_" not in k]
+    by_parent = {}
+    for k in missing:
+        by_parent.setdefault(k.rsplit("::", 1)[0], []).append(k)
+    new_by_parent = {}
+    for nid in new:
+        new_by_parent.setdefault(_stable(nid).rsplit("::", 1)[0], []).append(nid)
+    crate.renamed = getattr(crate, "renamed", [])
+    for par, nids in new_by_parent.items():
+        olds = by_parent.get(par, [])
+        if len(nids) != 1 or len(olds) != 1:
+            continue
+        nid, old = nids[0], olds[0]
+        old_last = old.rsplit("::", 1)[1]
+        b = new.pop(nid)
+        new_last = b.get("item") or nid.rsplit("::", 1)[1]
+        b["item"] = old_last
+        if b.get("name", "").endswith("::" + new_last):
+            b["name"] = b["name"][: -len(new_last)] + old_last
+        for c in crate.bodies:
+            if c.get("name") and ("::" + new_last + "::") in c["name"] and c.get("parent", "").startswith(nid):
+                c["name"] = c["name"].replace("::" + new_last + "::", "::" + old_last + "::")
+            for bl in c["mir"]["blocks"]:
+                t = bl["t"]
+                if t.get("k") == "call" and (t.get("callee_id") == nid or t.get("resolved_id") == nid):
+                    if t.get("name") == new_last:
+                        t["name"] = old_last
+                    for fld in ("callee", "resolved"):
+                        if isinstance(t.get(fld), str) and t[fld].endswith("::" + new_last):
+                            t[fld] = t[fld][: -len(new_last)] + old_last
+        # .. and where the function is mentioned as a value (`.map(parse_etag)`): constants and function-item types
+        pat = re.compile(r"::" + re.escape(new_last) + r"(?![A-Za-z0-9_])")
+
+        def _fix(x):
+            if isinstance(x, dict):
+                if (x.get("def") == nid or x.get("d") == nid) or (isinstance(x.get("s"), str) and ("::" + new_last) in x["s"] and ("def" in x or "promoted" not in x)):
+                    for fld in ("s", "d", "def"):
+                        if isinstance(x.get(fld), str) and fld != "def":
+                            x[fld] = pat.sub("::" + old_last, x[fld])
+                for v in x.values():
+                    if isinstance(v, (dict, list)):
+                        _fix(v)
+            elif isinstance(x, list):
+                for v in x:
+                    if isinstance(v, (dict, list)):
+                        _fix(v)
+        for c in crate.bodies:
+            _fix(c["mir"])
+            for pm in c.get("promoted", []) or []:
+                _fix(pm)
+        for ty in (crate.types.values() if isinstance(crate.types, dict) else crate.types):
+            if isinstance(ty, dict):
+                for fld in ("s", "d"):
+                    if isinstance(ty.get(fld), str) and ("::" + new_last) in ty[fld]:
+                        ty[fld] = pat.sub("::" + old_last, ty[fld])
+        crate.renamed.append((nid, old))
+        log.append((nid, old, "renamed"))
+
+
+def desugar_option_tests(crate):
+    """`opt.is_some_and(|x| p(x))` / `opt.is_none_or(|x| p(x))` with a closure literal are rewritten, at fact level, into what
+    they abbreviate: a test of the discriminant, the constant for the empty case, and the closure body on the payload.  The
+    rules then see the `if let Some(x) = opt { p(x) } else { false }` they already read.  Returns the number of sites."""
+    n = 0
+    isize_ty = None
+    for b in crate.bodies:
+        for bl in b["mir"]["blocks"]:
+            if bl["t"].get("k") == "switch" and any(s_.get("k") == "assign" and s_["r"].get("k") == "discr" for s_ in bl["s"]):
+                isize_ty = bl["t"].get("ot")
+                break
+        if isize_ty is not None:
+            break
+    if isize_ty is None:
+        return 0
+    for c in crate.bodies:
+        if "::tests::" in c["id"] or c["id"].endswith("::tests") or "::test_" in c["id"]:
+            continue
+        mir = c["mir"]
+        for bi in range(len(mir["blocks"])):
+            bl = mir["blocks"][bi]
+            t = bl["t"]
+            if t.get("k") != "call" or bl.get("cleanup") or len(t.get("args", [])) != 2 or t.get("t") is None or t.get("dest", {}).get("p"):
+                continue
+            cal = t.get("callee") or ""
+            if cal not in ("std::option::Option::<T>::is_some_and", "std::option::Option::<T>::is_none_or"):
+                continue
+            opt = t["args"][0].get("m") or t["args"][0].get("c")
+            clo = t["args"][1].get("m") or t["args"][1].get("c")
+            if opt is None or clo is None or opt.get("p") or clo.get("p"):
+                continue
+            # the closure literal behind the second argument
+            hid = None
+            for bl2 in mir["blocks"]:
+                for s_ in bl2["s"]:
+                    if s_.get("k") == "assign" and s_["p"].get("l") == clo["l"] and not s_["p"].get("p") and s_["r"].get("k") == "agg" and s_["r"].get("ak") == "closure":
+                        hid = s_["r"].get("id")
+            h = crate.by_id.get(hid) if hid else None
+            if h is None or h["mir"].get("argc") != 2 or len(h["mir"]["blocks"]) > MAX_BLOCKS:
+                continue
+            sp = t.get("sp", {})
+            bool_ty = mir["locals"][t["dest"]["l"]]["t"]
+            pay_ty = h["mir"]["locals"][2]["t"]
+            opt_ty = mir["locals"][opt["l"]]["t"]
+            dl = len(mir["locals"])
+            mir["locals"].append({"t": isize_ty})
+            empty_val = cal.endswith("is_none_or")
+            b_none, b_some, b_unr = len(mir["blocks"]), len(mir["blocks"]) + 1, len(mir["blocks"]) + 2
+            mir["blocks"].append({"s": [_assign(t["dest"], {"k": {"t": bool_ty, "s": "true" if empty_val else "false", "v": 1 if empty_val else 0}}, sp)], "t": _goto(t["t"], sp)})
+            payload = {"l": opt["l"], "p": [{"k": "downcast", "v": 1, "n": "Some"}, {"k": "field", "i": 0, "t": pay_ty, "n": "0"}], "t": pay_ty}
+            mir["blocks"].append({"s": [], "t": {"sp": sp, "k": "call", "callee": h.get("name", hid), "callee_id": hid, "resolved_id": hid, "name": "call_once",
+                                                 "args": [t["args"][1], {"m": payload}], "argt": [], "substs": [], "dest": t["dest"], "destt": t.get("destt"), "t": t["t"]}})
+            mir["blocks"].append({"s": [], "t": {"sp": sp, "k": "unreachable"}})
+            bl["s"].append({"k": "assign", "p": {"l": dl}, "r": {"k": "discr", "p": {"l": opt["l"]}, "t": opt_ty}, "sp": sp})
+            bl["t"] = {"sp": sp, "k": "switch", "o": {"m": {"l": dl}}, "ot": isize_ty, "arms": [[0, b_none], [1, b_some]], "otherwise": b_unr}
+            _inline_sync(c, mir, b_some, h)
+            n += 1
+    return n
+
+
 def apply(crate):
     """Inline new private helpers into their callers.  Returns [(helper id, caller id, how)]."""
     known = known_ids()
@@ -297,6 +424,8 @@ def apply(crate):
         if "::tests::" in b["id"] or b["id"].endswith("::tests") or "::test_" in b["id"]:
             continue
         new[b["id"]] = b
+    if new:
+        _undo_renames(crate, known, new, log)
     if not new:
         return log
     for _round in range(5):
